@@ -138,7 +138,8 @@ func c15r2(r *R) {
 		n++
 		e := c.Expr(ret.Results[0])
 		o.AtI(i)
-		o.Check(e == `strings.HasPrefix((*net/http.Request).UserAgent(p0), "kube-probe/")`, "predicate returns %s, want strings.HasPrefix(r.UserAgent(), \"kube-probe/\")", e)
+		// HasPrefix, or CutPrefix's `found` result, which is defined as HasPrefix
+		o.Check(e == `strings.HasPrefix((*net/http.Request).UserAgent(p0), "kube-probe/")` || e == `strings.CutPrefix((*net/http.Request).UserAgent(p0), "kube-probe/")#1`, "predicate returns %s, want strings.HasPrefix(r.UserAgent(), \"kube-probe/\")", e)
 	})
 	o.Check(n == 1, "predicate has %d return sites, want 1", n)
 }
